@@ -285,6 +285,40 @@ def r4(ctx):
             ctx.require(bool(oki), 'C03.R4', fi, s, 'every assembly must be '
                         'scaled', key='%s | all assemblies %s %s'
                         % (fi.full, factor, src(s.target)))
+    # the factors applied on a path are the factors of the returned total
+    # on that path: enumerate (normalisation requested?) x (scaling != 1?)
+    from .. import dataflow
+    for has_norm in (False, True):
+        for has_scal in (False, True):
+            env = {ptot: 1.0 if has_norm else None,
+                   pscal: 2.0 if has_scal else 1.0}
+            applied = {}
+            for factor, got in blocks.items():
+                for st in got:
+                    conds = U.guards(st) + dataflow.path_conditions(fi, st)
+                    runs = True
+                    for t, pol in conds:
+                        v = U.eval_test(t, env)
+                        if v is not None and v != pol:
+                            runs = False
+                    if runs:
+                        applied.setdefault(src(st.target), []).append(factor)
+            expect = sorted((['renorm'] if has_norm else []) +
+                            ([pscal] if has_scal else []))
+            bad = {t: f for t, f in applied.items() if sorted(f) != expect}
+            miss = [t for t in want if t not in applied] if expect else []
+            ctx.require(not bad and not miss, 'C03.R4', fi, fi.node,
+                        'with normalisation %s and scaling factor %s the '
+                        'targets must be multiplied by exactly %s (the '
+                        'factors of the returned core total on that path); '
+                        'found %s%s' % (
+                            'requested' if has_norm else 'absent',
+                            '!= 1' if has_scal else '== 1', expect or
+                            'nothing', bad or applied,
+                            '; not scaled: %s' % miss if miss else ''),
+                        note='norm=%s scaling=%s' % (has_norm, has_scal),
+                        key='%s | factors norm=%s scal=%s'
+                        % (fi.full, has_norm, has_scal))
     rets = [n for n in walk_no_nested(fi.node) if isinstance(n, ast.Return)]
     ok = len(rets) == 1 and isinstance(rets[0].value, ast.Tuple) and \
         src(rets[0].value.elts[0]) == plist
